@@ -615,6 +615,9 @@ Definition explain_tc (c : tc_case) := explain_tc_from tc_state0 (tcc_ops c).
 Record restart_case := { rc_old : rt_spec; rc_new : rt_spec;
                          rc_need : bool; rc_delta : Z;       (* observed decision, observed startNum increase *)
                          rc_live : Z;                         (* 0 not tried | 1 same connection reused | 2 new connection | 3 request failed *)
+                         rc_equal_after_load : bool;          (* loaded old spec Equals a fresh parse of the same YAML *)
+                         rc_after : list mx_resp;             (* probe answers of the updated runtime *)
+                         rc_fresh : list mx_resp;             (* ... of a runtime that only ever had the new spec *)
                          rc_rbad : bool }.
 
 Definition hot_eqb (a b : rt_hot) : bool :=
@@ -627,13 +630,66 @@ Definition check_restart (pinned : rquirks) (c : restart_case) : result :=
   let hot_only := rt_listen_eqb (rs_listen (rc_old c)) (rs_listen (rc_new c)) in
   let live := negb (rc_live c =? 0) in
   (Bool.eqb (need_restart (rc_old c) (rc_new c)) (rc_need c) && (d =? rc_delta c) &&
-   (if live then Bool.eqb keeps (rc_live c =? 1) else true),
+   (if live then Bool.eqb keeps (rc_live c =? 1) else true) &&
+   (* the model rebuilds the mux from the new spec unconditionally, and parsing is a function of the YAML *)
+   list_eqb resp_eqb (rc_after c) (rc_fresh c) && rc_equal_after_load c,
    (* the property: an update of rules / filters / hot options never restarts the listener, never
       drops the keep-alive connection of a client, never fails its next request *)
-   (if hot_only then negb (rc_need c) && (rc_delta c =? 0) && (if live then rc_live c =? 1 else true) else true),
+   (if hot_only then negb (rc_need c) && (rc_delta c =? 0) && (if live then rc_live c =? 1 else true) else true) &&
+   (* once the update is applied, requests are answered like a runtime built from the new spec alone;
+      an unchanged spec is recognised as unchanged even after the object has compiled it *)
+   list_eqb resp_eqb (rc_after c) (rc_fresh c) && rc_equal_after_load c,
    (1 + bN hot_only 1 + bN (negb (hot_eqb (rs_hot (rc_old c)) (rs_hot (rc_new c)))) 2 + bN live 4
       + bN (match rh_ipfilter (rs_hot (rc_old c)), rh_ipfilter (rs_hot (rc_new c)) with [], [] => false | _, _ => true end) 8)%N,
    0%N).
 
 Definition explain_restart (c : restart_case) :=
   (need_restart (rc_old c) (rc_new c), rt_reload (rc_old c) (rc_new c)).
+
+(** * grp "tcreal": ApplyPipeline with real Pipeline objects; model: [tc_step] on [TApply CP],
+    a spec's content standing for its tag *)
+Record tcreal_case := { trc_ops : list (string * Z);        (* name, canonical spec content id *)
+                        trc_obs : list (bool * Z * Z);      (* error/panic, returned entity id, lifecycle calls *)
+                        trc_bad : bool }.
+
+Fixpoint tcreal_corr (st : tc_state) (ops : list (string * Z)) (obs : list (bool * Z * Z)) : bool :=
+  match ops, obs with
+  | [], [] => true
+  | (n, sp) :: ot, (err, ret, nev) :: bt =>
+      let '(st', r) := tc_step st (TApply CP "n1" n sp) in
+      negb err && negb (tr_err r) && (tr_ret r =? ret) &&
+      Bool.eqb (match tr_evs r with [] => true | _ => false end) (nev =? 0) &&
+      tcreal_corr st' ot bt
+  | _, _ => false
+  end.
+
+(** on the observations alone: [live] = per name (spec content, entity id) as last returned *)
+Fixpoint tcreal_prop (live : list (string * (Z * Z))) (ops : list (string * Z)) (obs : list (bool * Z * Z)) : bool :=
+  match ops, obs with
+  | [], [] => true
+  | (n, sp) :: ot, (err, ret, nev) :: bt =>
+      negb err &&
+      (match slookup n live with
+       | Some (sp0, id0) =>
+           if sp0 =? sp then (nev =? 0) && (ret =? id0)          (* unchanged spec: no lifecycle call, same entity *)
+           else negb (nev =? 0) && negb (ret =? id0)
+       | None => negb (nev =? 0)
+       end) &&
+      tcreal_prop (sset n (sp, ret) live) ot bt
+  | _, _ => false
+  end.
+
+Fixpoint has_reapply (live : list (string * Z)) (ops : list (string * Z)) : bool :=
+  match ops with
+  | [] => false
+  | (n, sp) :: t => opt_eqb Z.eqb (slookup n live) (Some sp) || has_reapply (sset n sp live) t
+  end.
+
+Definition check_tcreal (pinned : rquirks) (c : tcreal_case) : result :=
+  if trc_bad c then (true, true, 0%N, 0%N) else
+  (tcreal_corr tc_state0 (trc_ops c) (trc_obs c), tcreal_prop [] (trc_ops c) (trc_obs c),
+   (1 + bN (has_reapply [] (trc_ops c)) 1)%N, 0%N).
+
+Definition explain_tcreal (c : tcreal_case) :=
+  map (fun '(st, r) => (tr_err r, tr_ret r, tr_evs r))
+      (tc_run tc_state0 (map (fun '(n, sp) => TApply CP "n1" n sp) (trc_ops c))).
